@@ -117,8 +117,15 @@ def r2(run):
                        "the %s written to %s is a function of the frame alone: %s" % (name, q.place_path(part)[-1] if q.place_path(part) else "?", fmt(strip(e))[:90]),
                        reason="import-not-idempotent")
     # the primary value is the serde_json rendering of the whole frame
-    enc = [c for c in ib.calls() if c.bb in ib.live_blocks() and c.fn == "serde_json::ser::to_vec"]
-    run.ob("%s|value-is-whole-frame" % C.INSERT_FRAME, len(enc) == 1 and mentions_arg(enc[0].arg(0), 2), ib.sp, "the stored value is serde_json::to_vec(frame)", reason="import-loses-fields")
+    enc = [c for c in ib.calls() if c.bb in ib.live_blocks() and c.fn in ("serde_json::ser::to_vec", "serde_json::ser::to_string")]
+    def _whole_frame(e):
+        x = strip(e)
+        n = 0
+        while x[0] in ("ref", "deref", "copy", "move") and len(x) > 1 and isinstance(x[1], tuple) and n < 8:
+            x = strip(x[1])
+            n += 1
+        return x[0] == "arg" and x[1] == 2        # the frame parameter itself, not one of its fields
+    run.ob("%s|value-is-whole-frame" % C.INSERT_FRAME, len(enc) == 1 and mentions_arg(enc[0].arg(0), 2) and _whole_frame(enc[0].arg(0)), ib.sp, "the stored value is serde_json::to_vec(frame) (or to_string(frame) as bytes)", reason="import-loses-fields")
 
 
 def r4(run):
